@@ -77,9 +77,9 @@ PROPS = {
         "assumptions": ["proved: intermediate-reference resolution stays in range; the other clauses of the invariant (C06_statement, kept at full strength) are decided per run by the invariant oracle on the implementation and by whole-recipe correspondence, not by a theorem yet"],
     },
     "C07": {
-        "gen": [CONSTS, CHARTABLE],
+        "gen": [CONSTS, CHARTABLE, {"script": "diag_catalogue.py"}],
         "trusted_base": COMMON_TB + SYNTAX_TB + ["external to the model (parameters): serde_yaml (front matter content is not interpreted; metadata and diagnostics that depend on it are excluded from the compared reply), check_std_entry on `>>` values (until the std-metadata model is plugged in its warnings are excluded from the compared reply), unicase folding (table extracted from the real crate on every run), converter key lookup (table extracted from Converter::bundled() on every run)"],
-        "assumptions": ["proved: validity definition, parse-error short-circuit, output kept without parse errors; soundness on well-formed recipes and completeness/placement of the 33 catalogued constructs are tested (planted constructs, oracle + model correspondence of every label), not proved"],
+        "assumptions": ["proved: validity definition, parse-error short-circuit, output kept without parse errors; soundness on well-formed recipes and completeness/placement of the 59 catalogued constructs are tested (planted constructs, oracle + model correspondence of every label), not proved"],
     },
     "C01": {
         "gen": [CONSTS, CHARTABLE],
